@@ -488,7 +488,8 @@ def reaching_definitions(g: CFG) -> tuple[list[Def], dict[int, set[Def]]]:
 _FRESH_CALLS = ("set", "list", "dict", "sorted", "frozenset", "tuple", "len", "str", "int", "bool", "sum", "min", "max", "any", "all")
 
 
-def aliased_store_mutations(func_node: ast.AST, attrs: Iterable[str] | None = None) -> list[tuple[ast.AST, str, str]]:
+def aliased_store_mutations(func_node: ast.AST, attrs: Iterable[str] | None = None, live_returns: dict[str, str] | None = None,
+                            want_returns: bool = False):
     """Mutations of a store attribute through a LOCAL alias, flow-sensitively.
 
     A definition aliases store attribute A when its value is `self.A`, `self.A[k]`,
@@ -519,6 +520,11 @@ def aliased_store_mutations(func_node: ast.AST, attrs: Iterable[str] | None = No
             nm = call_name(v)
             if nm in ("copy", "deepcopy") or (isinstance(v.func, ast.Name) and v.func.id in _FRESH_CALLS):
                 return None
+            # a sibling method that hands out a live store value (see live_returning_methods)
+            if live_returns and isinstance(v.func, ast.Attribute) and isinstance(v.func.value, ast.Name) and v.func.value.id == "self" and nm in live_returns:
+                a = live_returns[nm]
+                if want is None or a in want:
+                    return a
             if nm in ("get", "setdefault", "pop") and isinstance(v.func, ast.Attribute):
                 a = self_attr(v.func.value)
                 if a is not None and (want is None or a in want):
@@ -594,6 +600,16 @@ def aliased_store_mutations(func_node: ast.AST, attrs: Iterable[str] | None = No
     def at_nodes(x: ast.AST) -> list[int]:
         return [n.id for n in cfg_node_of(g, func_node, x, pm)]
 
+    if want_returns:
+        # store attributes whose (mutable) values some `return` hands out uncopied
+        rets: set[str] = set()
+        for n in walk_no_nested(func_node):
+            if isinstance(n, ast.Return) and n.value is not None:
+                for nid in at_nodes(n):
+                    a = source_attr(n.value, nid)
+                    if a:
+                        rets.add(a)
+        return rets
     for n in walk_no_nested(func_node):
         root = None
         if isinstance(n, ast.Call) and isinstance(n.func, ast.Attribute) and n.func.attr in MUTATING_METHODS:
@@ -619,6 +635,94 @@ def aliased_store_mutations(func_node: ast.AST, attrs: Iterable[str] | None = No
                 seen.add(id(n))
                 out.append((n, root.id, a))
     return out
+
+
+def live_returning_methods(methods: dict[str, ast.AST]) -> dict[str, str]:
+    """method name -> store attribute, for methods of one class that return a live (uncopied) element / value of a
+    `self.<attr>` container: `return self.X[k]`, `return self.X.get(k, ..)`, or a local that aliases one.  Solved to a
+    fixpoint so that a method returning another live-returning method's result counts too.  Methods whose value is
+    an immutable scalar cannot be told apart here; callers only matter when they MUTATE what they got."""
+    live: dict[str, str] = {}
+    for _ in range(4):
+        changed = False
+        for name, node in methods.items():
+            if name in live:
+                continue
+            rets = aliased_store_mutations(node, None, live, want_returns=True)
+            if rets:
+                live[name] = sorted(rets)[0]
+                changed = True
+        if not changed:
+            break
+    return live
+
+
+def may_fail_sites(func_node: ast.AST) -> list[tuple[ast.AST, str]]:
+    """Places of a (rendering) function that can raise for some state of its inputs: an element access `x[<int>]` /
+    `x[<key>]` without a length / truthiness / membership condition holding on every path to it, `next(it)` without a
+    default, an explicit `raise`.  Slices never fail.  Used for functions the path engines treat as total (__str__ ...)."""
+    out: list[tuple[ast.AST, str]] = []
+    g = None
+    pm = parent_map(func_node)
+
+    def lower_bound(conds: list[ast.AST], base: str) -> int:
+        lb = 0
+        for c in conds:
+            if ast.unparse(c) == base:
+                lb = max(lb, 1)
+            if isinstance(c, ast.Compare) and len(c.ops) == 1 and isinstance(c.left, ast.Call) and call_name(c.left) == "len" and c.left.args and ast.unparse(c.left.args[0]) == base and isinstance(c.comparators[0], ast.Constant) and isinstance(c.comparators[0].value, int):
+                k = c.comparators[0].value
+                op = type(c.ops[0])
+                if op in (ast.Eq, ast.GtE):
+                    lb = max(lb, k)
+                elif op is ast.Gt:
+                    lb = max(lb, k + 1)
+                elif op is ast.NotEq and k == 0:
+                    lb = max(lb, 1)
+        return lb
+
+    for n in walk_no_nested(func_node):
+        if isinstance(n, ast.Raise):
+            out.append((n, "raises"))
+        elif isinstance(n, ast.Call) and isinstance(n.func, ast.Name) and n.func.id == "next" and len(n.args) == 1:
+            out.append((n, "next() without a default"))
+        elif isinstance(n, ast.Subscript) and isinstance(n.ctx, ast.Load) and not isinstance(n.slice, ast.Slice):
+            if g is None:
+                g = build_cfg(func_node)
+            conds = conditions_at(g, func_node, n, pm)
+            base = ast.unparse(n.value)
+            idx = n.slice
+            if isinstance(idx, ast.UnaryOp) and isinstance(idx.op, ast.USub) and isinstance(idx.operand, ast.Constant):
+                need = abs(idx.operand.value) if isinstance(idx.operand.value, int) else None
+            elif isinstance(idx, ast.Constant) and isinstance(idx.value, int):
+                need = idx.value + 1
+            else:
+                need = None
+            if need is not None:
+                if lower_bound(conds, base) < need:
+                    out.append((n, f"`{ast.unparse(n)}` with nothing on the path ensuring len({base}) >= {need}"))
+            else:
+                member = any(isinstance(c, ast.Compare) and len(c.ops) == 1 and isinstance(c.ops[0], ast.In) and ast.unparse(c.left) == ast.unparse(idx) and ast.unparse(c.comparators[0]) == base for c in conds)
+                if not member:
+                    out.append((n, f"`{ast.unparse(n)}` without a membership test on the path"))
+    return out
+
+
+_LIVE_CACHE: dict[int, dict[str, str]] = {}
+
+
+def class_live_returns(cls) -> dict[str, str]:
+    """live_returning_methods over a class and its bases (most derived definition wins); cached per ClassInfo."""
+    if cls is None:
+        return {}
+    k = id(cls)
+    if k not in _LIVE_CACHE:
+        methods: dict[str, ast.AST] = {}
+        for c in reversed(cls.mro()):
+            for n, m in c.methods.items():
+                methods[n] = m.node
+        _LIVE_CACHE[k] = live_returning_methods(methods)
+    return _LIVE_CACHE[k]
 
 
 # ---------------------------------------------------------------------------------------------
